@@ -166,9 +166,12 @@ def _to_nodal(en, x):
   return x          # a state field: its nodal column is the input itself
 
 
-def _state(en, tv=None):
+QH = F('specific_humidity.at')
+
+
+def _state(en, tv=None, moist=False):
   return E.Obj(vorticity=_col(VOR, 'vorticity'), divergence=_col(DIV, 'divergence'), temperature_variation=tv if tv is not None else _col(TV, 'temperature_variation'),
-               log_surface_pressure=('modal', 'log_surface_pressure'), tracers={})
+               log_surface_pressure=('modal', 'log_surface_pressure'), tracers={'specific_humidity': _col(QH, 'specific_humidity')} if moist else {})
 
 
 def _diag(en, coords, state):
@@ -198,10 +201,13 @@ def diagnostic_contract(en: E.Engine):
   en.ensure('the nodal divergence / temperature columns are passed through', z3.And(aux.divergence.get(k) == DIV(k), aux.temperature_variation.get(k) == TV(k)))
 
 
-def _pe_self(en, coords, tref):
+def _pe_self(en, coords, tref, moist=False):
   from dinosaur import primitive_equations as pe
   kappa, R = en.real('kappa'), en.real('ideal_gas_constant')
-  return E.Obj(class_ref=pe.PrimitiveEquations, coords=coords, reference_temperature=tref, physics_specs=E.Obj(kappa=kappa, R=R, ideal_gas_constant=R),
+  specs = E.Obj(kappa=kappa, R=R, ideal_gas_constant=R)
+  if moist:
+    specs.R_vapor, specs.Cp, specs.Cp_vapor = en.real('R_vapor'), en.real('Cp'), en.real('Cp_vapor')
+  return E.Obj(class_ref=pe.MoistPrimitiveEquations if moist else pe.PrimitiveEquations, coords=coords, reference_temperature=tref, physics_specs=specs,
                include_vertical_advection=True, vertical_advection=_adv_fn(), vertical_matmul_method='dense'), kappa
 
 
@@ -303,14 +309,14 @@ TABS = F('absolute_temperature.at')
 TA, TB = F('reference_temperature_A.at'), F('reference_temperature_B.at')
 
 
-def _temperature_total(en, coords, vert, TRf, tag):
+def _temperature_total(en, coords, vert, TRf, tag, moist=False):
   """explicit vertical + adiabatic nodal tendency + implicit temperature term of the real code, for reference profile TRf and T' = T - TRf.
   Returns level -> term, and the hypotheses (instances) needed to relate its ghost symbols."""
   from dinosaur import primitive_equations as pe
   tref = _col(TRf, f'reference_temperature_{tag}')
   tv = E.SymSeq(N, lambda i: TABS(E.to_z3(i)) - TRf(E.to_z3(i)), z3.RealSort(), 'temperature_variation')
-  self, kappa = _pe_self(en, coords, tref)
-  aux = _diag(en, coords, _state(en, tv))
+  self, kappa = _pe_self(en, coords, tref, moist)
+  aux = _diag(en, coords, _state(en, tv, moist))
   kind1, vert_t = en.invoke(en.getattr(self, 'nodal_temperature_vertical_tendency'), aux)
   kind2, adia_t = en.invoke(en.getattr(self, 'nodal_temperature_adiabatic_tendency'), aux)
   if 'raise' in (kind1, kind2):
@@ -321,12 +327,17 @@ def _temperature_total(en, coords, vert, TRf, tag):
   return self, kappa, vert_t, adia_t, Hs
 
 
-def split_independence_contract(en: E.Engine):
+def split_independence_contract(en: E.Engine, moist=False):
   """Temperature equation at level r of the column: explicit (vertical advection + adiabatic) + implicit(-H D), for two reference profiles A, B
   and the same absolute temperature.  The implicit row sum  sum_s H[r, s] D[s]  is reduced to prefix sums of D dsigma by the partial-sum lemma
   (vertical_matrix_contracts), whose hypotheses are the structure facts of H (proved there for the real matrix)."""
   coords, vert = _coords(en)
-  en.cover('requires: valid sigma coordinates')
+  if moist:
+    en.allow_nonfinite = True        # numpy division: a zero denominator gives a non-finite marker; the obligations below carry the facts that exclude it
+    # physically admissible humidity and heat capacities (0 <= q <= 1, Cp, Cp_vapor > 0, so 1 + (Cp_vapor / Cp - 1) q = (1 - q) + (Cp_vapor / Cp) q > 0) are
+    # hypotheses of the final obligations only: kept out of the path condition, where a quantified non-linear fact slows every feasibility query down
+    en.assume(z3.And(z3.Real('Cp') > 0, z3.Real('Cp_vapor') > 0, z3.Real('ideal_gas_constant') > 0))
+  en.cover('requires: valid sigma coordinates' + (', admissible humidity' if moist else ''))
   r = en.int('r')
   en.assume(z3.And(r >= 0, r < N))
   CSs = ghost(en, lambda j: d_(j))
@@ -336,7 +347,7 @@ def split_independence_contract(en: E.Engine):
   totals = []
   nonconst = {}
   for tag, TRf in (('A', TA), ('B', TB)):
-    self, kappa, vert_t, adia_t, Hs = _temperature_total(en, coords, vert, TRf, tag)
+    self, kappa, vert_t, adia_t, Hs = _temperature_total(en, coords, vert, TRf, tag, moist)
     flag, body = en.unique_facts[-1]
     nonconst[tag] = (en.truth(flag), body)
     explicit = (E._real(vert_t.get(r)) if arrays._is_seq(vert_t) else E._real(vert_t)) + E._real(adia_t.get(r))
@@ -366,6 +377,8 @@ def split_independence_contract(en: E.Engine):
   rules.append(ring.Rule('B(0) = 0', fn=B, template=lambda t: z3.RealVal(0), guard=lambda t: t == 0))
   rules.append(ring.Rule('B(N) = 1', fn=B, template=lambda t: z3.RealVal(1), guard=lambda t: t == N))
   hyps = list(VM._pos(r - 2, r - 1, r, r + 1, r + 2, z3.IntVal(0), N - 1)) + [B(0) == 0, B(N) == 1]
+  if moist:
+    hyps += [z3.Real('Cp') > 0, z3.Real('Cp_vapor') > 0, z3.Real('ideal_gas_constant') > 0, QH(r) >= 0, QH(r) <= 1] + [z3.Implies(z3.And(t >= 0, t < N), 1 + (z3.Real('Cp_vapor') / z3.Real('Cp') - 1) * QH(t) > 0) for t in (r - 1, r, r + 1)]
   for tag, (is_nonconst, body) in nonconst.items():
     if not is_nonconst:
       TRf = TA if tag == 'A' else TB
@@ -377,7 +390,7 @@ def split_independence_contract(en: E.Engine):
   rows = [('r = 0 = N-1', [r == 0, N == 1]), ('r = 0, N = 2', [r == 0, N == 2]), ('r = 0, N >= 3', [r == 0, N >= 3]),
           ('r = 1 = N-1', [r == 1, N == 2], [(N, r + 1)]), ('r = 1 < N-1', [r == 1, N >= 3]), ('1 < r < N-1', [r >= 2, r < N - 1]), ('1 < r = N-1', [r >= 2, r == N - 1], [(N, r + 1)])]
   label = ', '.join(f'T_ref {t} {"varies" if nonconst[t][0] else "is constant"}' for t in ('A', 'B'))
-  VM.ensure_cases(en, f'temperature tendency at level r (vertical advection + adiabatic + implicit) is the same for reference profiles A and B with the same absolute temperature [{label}]',
+  VM.ensure_cases(en, f'{"moist " if moist else ""}temperature tendency at level r (vertical advection + adiabatic + implicit) is the same for reference profiles A and B with the same absolute temperature [{label}]',
                   [N >= 1, r >= 0, r < N], rows, hyps, lhs == rhs, timeout_ms=30000, rules=rules)
 
 
@@ -648,6 +661,10 @@ def clauses():
                  [PE + 'PrimitiveEquations.nodal_temperature_vertical_tendency', PE + 'PrimitiveEquations.nodal_temperature_adiabatic_tendency',
                   PE + 'PrimitiveEquations._t_omega_over_sigma_sp', PE + 'compute_diagnostic_state', PE + 'get_temperature_implicit_weights'],
                  rc(split_independence_contract, 2), group='pyvc-col'),
+          Clause('smt:moist temperature equation (virtual-temperature adiabatic term with humidity) independent of the reference profile at every level of every column (all layer counts, all admissible humidities)', 'smt',
+                 [PE + 'MoistPrimitiveEquations.nodal_temperature_adiabatic_tendency', PE + 'PrimitiveEquations.nodal_temperature_vertical_tendency',
+                  PE + 'PrimitiveEquations._t_omega_over_sigma_sp', PE + 'compute_diagnostic_state', PE + 'get_temperature_implicit_weights'],
+                 (lambda ctx: run_contract(lambda en: split_independence_contract(en, moist=True), min_obligations=2, setup=_setup, timeout_ms=120000, max_paths=400)), group='pyvc-col'),
           Clause('lemma:ghost sums are additive in the summand and telescope over layer thicknesses (induction: base + step)', 'smt',
                  ['dinosaur.sigma_coordinates.cumulative_sigma_integral'], rc(ghost_lemmas, 4), group='pyvc-col'),
       ],
